@@ -79,6 +79,10 @@ type propCfg struct {
 	QuickBudget time.Duration
 	ThorBudget  time.Duration
 	Race        bool
+	// ExtraEnv is added to every run's environment; RunTimeout replaces the 240 s wall-clock
+	// watchdog (short for worlds whose failure mode is an endless loop).
+	ExtraEnv   []string
+	RunTimeout time.Duration
 }
 
 var commonAssumptions = []string{
@@ -109,6 +113,8 @@ func init() {
 		Rule: "the simulator is built with the Go race detector (-race); 2-5 concurrent clients use the public API (Stats, Peers, Trackers, Webseeds, Files, FileStats, Magnet, Torrent, Port/Name, AddPeer by IP and by host name, AddTracker, Announce, Start, Stop, Verify, AddTorrent+RemoveTorrent of a second torrent, ListTorrents, CompactDatabase, CleanDatabase, StartAll) and the RPC client (rainrpc over the simulated network) with seeded gaps while the torrent downloads from / uploads to scripted peers and web seeds and the session writes resume data every 0.2-3 s; every race report whose accesses are not both inside the simulator's own packages is a violation keyed by the two innermost function pairs; a call that has not returned for two simulated minutes, rain's own 'torrent does not respond' health check and any other crash are violations; non-trivial if a piece write happened; distinct = distinct event-trace hashes"}
 	props["C12"] = &propCfg{Scenarios: []scenarioRef{{"mse", 3}, {"pair", 2}, {"encpolicy", 2}}, OwnsCrash: true, Level: "exploration",
 		Rule: "(a) both ends of rain's mse.Stream over a simulated connection that fragments, delays and short-reads: offered ciphers 1/2/3, acceptor policies (RC4 first, plaintext first, only one, none), wrong key, initial payload 0..65535, pads drawn by rain from the seeded crypto/rand, then full-duplex data in random write and read chunkings; the handshake must fail on both sides or succeed on both with the acceptor's legal choice, and every byte (initial payload first) must arrive unchanged; (b) two or three real sessions with independently drawn encryption policies transfer a torrent over such a network: a session that forces a direction never writes or answers a plaintext handshake and never lists an unencrypted peer of that direction, compatible policies complete; (c) a session that forces encryption against scripted plaintext-only peers never puts a plaintext BitTorrent handshake on the wire, also not on the retry; non-trivial always (each run performs at least one handshake attempt); distinct = distinct event-trace hashes"}
+	props["C06"] = &propCfg{Scenarios: []scenarioRef{{"metainfo", 1}}, OwnsCrash: true, Level: "exploration", ExtraEnv: []string{"SIM_MEMLIMIT_MB=6000"}, RunTimeout: 90 * time.Second,
+		Rule: "a valid generated info dictionary is edited (0-3 edits: negative / overflowing / huge file lengths, piece length 0/negative/huge/odd, piece string cut or grown, wrong types, deleted keys, length and files together, empty files list, odd paths, deep nesting, huge or empty name, 50000 files, byte flips, truncation, duplicated key, trailing bytes) and handed to a real session as a .torrent file, as the body of a torrent URL, as metadata served by a scripted peer for a magnet link whose hash matches the edited bytes, or as the info of a resume record before NewSession; whatever is accepted must show positive piece length, >=1 piece, non-negative file lengths, piece count = ceil(total/piece length) and respect MaxPieces; Start must leave the event loop answering Stats() for 20 simulated seconds; the process runs under a 6 GB address-space limit and a 90 s wall-clock watchdog, so endless loops and runaway allocation end the run as a crash or hang, which this property owns; non-trivial always; distinct = distinct event-trace hashes"}
 	props["C15"] = &propCfg{Scenarios: []scenarioRef{{"trackers", 1}}, Level: "exploration",
 		Rule: "1-3 torrents announcing to 1-3 tiers of scripted HTTP and UDP trackers whose reply scripts are generated (ok with any 32-bit interval / min interval or none, failure with retry-in, 4xx/5xx, garbage, oversize, no reply, delays; UDP: wrong transaction id, short, duplicate, datagram loss/duplication, connection-id expiry), down windows, start/stop/announce commands, optional seed so that 'completed' happens; every announce is checked online (info-hash, port, peer id vs handshake, counters, event discipline per run, spacing); non-trivial if more than two announces were received; distinct = distinct event-trace hashes among non-trivial runs"}
 	props["C16"] = &propCfg{Scenarios: []scenarioRef{{"trackers", 1}}, OwnsCrash: true, Level: "exploration",
@@ -154,6 +160,7 @@ type runner struct {
 	tier    string
 	workDir string
 	timeout time.Duration
+	env     []string
 }
 
 func (r *runner) run(scenario string, seed uint64, planFile string, extraEnv ...string) *runOutcome {
@@ -170,6 +177,7 @@ func (r *runner) run(scenario string, seed uint64, planFile string, extraEnv ...
 	if strings.HasSuffix(r.bin, "race.test") {
 		env = append(env, "GORACE=log_path="+filepath.Join(r.workDir, id+".race")+" halt_on_error=0 exitcode=0 history_size=4")
 	}
+	env = append(env, r.env...)
 	env = append(env, extraEnv...)
 	cmd.Env = env
 	var stderr bytes.Buffer
@@ -594,7 +602,10 @@ func main() {
 	if cfg.Race {
 		bin = dir + "/sim.race.test"
 	}
-	r := &runner{bin: bin, tier: *tier, workDir: work, timeout: 240 * time.Second}
+	r := &runner{bin: bin, tier: *tier, workDir: work, timeout: 240 * time.Second, env: cfg.ExtraEnv}
+	if cfg.RunTimeout > 0 {
+		r.timeout = cfg.RunTimeout
+	}
 	findings := loadFindings()
 
 	exit := 0
@@ -643,7 +654,8 @@ func main() {
 	stop := make(chan struct{})
 	go func() {
 		n := 0
-		deadline := t0.Add(budget)
+		// the budget is exploration time: building (slow on a loaded machine) does not eat it
+		deadline := time.Now().Add(budget)
 		for {
 			if time.Now().After(deadline) || (*maxRuns > 0 && n >= *maxRuns) {
 				break
